@@ -199,6 +199,9 @@ func checkC16(c *Ctx) {
 	c.Set("overlap_schedules", int64(nov))
 	c.Set("exhaustive", true)
 	c.Set("rule", "every configuration of the listed Console.tla families (thorough: the full 2M product) x 3 seeded concretisations; every JsonEnc.tla program (Spaced) up to the bound as console context x 2 concretisations")
+	for _, f := range replayConsoleSharedFields() {
+		c.Violation(f.Key, f.What, map[string]interface{}{"mode": "shared-field-list"})
+	}
 	for _, f := range replayConsoleZaptest(c.Seed) {
 		c.Violation(f.Key, f.What, map[string]interface{}{"mode": "zaptest-front-end"})
 	}
@@ -558,7 +561,7 @@ func replayConsoleZaptest(seed int64) (finds []Finding) {
 	lg := zaptest.NewLogger(t, zaptest.WrapOptions(zap.WithClock(clk)))
 	var buf bytes.Buffer
 	ref := zap.New(zapcore.NewCore(zapcore.NewConsoleEncoder(zap.NewDevelopmentEncoderConfig()), zapcore.AddSync(&buf), zapcore.DebugLevel), zap.WithClock(clk))
-	texts := append([]string{"100% done", "%d items", "%!s(MISSING)", "50%% off %s %v %[1]d %", "%"}, jeStrPool...)
+	texts := append([]string{"two\nlines", "100% done", "%d items", "%!s(MISSING)", "50%% off %s %v %[1]d %", "%"}, jeStrPool...)
 	rng := rand.New(rand.NewSource(seed))
 	for i, m := range texts {
 		if len(m) > 2000 {
@@ -587,6 +590,46 @@ func replayConsoleZaptest(seed int64) (finds []Finding) {
 		}
 		if got != want {
 			add("C16/zaptest:line-differs", "through zaptest.NewLogger the test log shows %q, the console line is %q", trunc(got), trunc(want))
+		}
+	}
+	return finds
+}
+
+// replayConsoleSharedFields: the field list of an entry is shared by every core of a tee and stays the caller's: a
+// console core in front leaves it as it was, so the cores behind it (and the next entry logged with the same list)
+// see the same fields.
+func replayConsoleSharedFields() (finds []Finding) {
+	add := func(key, f string, a ...interface{}) {
+		if len(finds) < 4 {
+			finds = append(finds, Finding{Key: key, What: fmt.Sprintf(f, a...)})
+		}
+	}
+	cfg := zapcore.EncoderConfig{MessageKey: "m", SkipLineEnding: true}
+	con, js, con2 := &jeSink{}, &jeSink{}, &jeSink{}
+	lg := zap.New(zapcore.NewTee(
+		zapcore.NewCore(zapcore.NewConsoleEncoder(cfg), con, zapcore.DebugLevel),
+		zapcore.NewCore(zapcore.NewJSONEncoder(cfg), js, zapcore.DebugLevel),
+		zapcore.NewCore(zapcore.NewConsoleEncoder(cfg), con2, zapcore.DebugLevel)))
+	mk := func() []zap.Field {
+		return []zap.Field{zap.Skip(), zap.String("path", "/x"), zap.Error(nil), zap.Int("status", 200), zap.NamedError("cause", nil), zap.Bool("c", true)}
+	}
+	fields, pristine := mk(), mk()
+	for round := 0; round < 2; round++ {
+		con.writes, js.writes, con2.writes = nil, nil, nil
+		lg.Info("req", fields...)
+		if len(js.writes) != 1 || string(js.writes[0]) != `{"m":"req","path":"/x","status":200,"c":true}` {
+			add("C16/context:core-vs-encoder", "tee of a console core and a JSON core, entry %d logged with the field list [Skip path Error(nil) status NamedError(nil) c]: the JSON core behind the console core wrote %q", round+1, js.writes)
+		}
+		for i, s := range []*jeSink{con, con2} {
+			if len(s.writes) != 1 || string(s.writes[0]) != "req\t"+`{"path": "/x", "status": 200, "c": true}` {
+				add("C16/shape", "tee with console cores, entry %d: console core %d wrote %q", round+1, i+1, s.writes)
+			}
+		}
+		for i := range fields {
+			if !fields[i].Equals(pristine[i]) {
+				add("C16/context:caller-fields-modified", "after entry %d the caller's field list has %+v at position %d (was %+v)", round+1, fields[i], i, pristine[i])
+				break
+			}
 		}
 	}
 	return finds
